@@ -222,7 +222,12 @@ def explore(prop, tier, verif_seed, runs_override=None, budget_override=None, wo
         digests[job['index']] = res.get('digest')
         for k, v in (res.get('probes') or {}).items():
             agg['probes'][k] = agg['probes'].get(k, 0) + v
-        ff = res.get('faults') or {}
+        ff = dict(res.get('faults') or {})
+        # engines whose injected disturbances are counted as probes (evaluation failures, clock steps, zone changes,
+        # blocked cache directories ...) name them in FAULT_PROBES; they are reported as fired faults too
+        for k in getattr(engine, 'FAULT_PROBES', ()):
+            if (res.get('probes') or {}).get(k):
+                ff[k] = ff.get(k, 0) + res['probes'][k]
         for k, v in ff.items():
             agg['faults'][k] = agg['faults'].get(k, 0) + v
         if sum(ff.values()) > 0:
